@@ -9,6 +9,10 @@ use vstd::std_specs::range::ContainsSpec;
 pub assume_specification<T> [std::mem::replace] (dest: &mut T, src: T) -> (r: T)
     ensures *final(dest) == src, r == *old(dest);
 
+// std::mem::take: moves the value out and leaves `T::default()` behind
+pub assume_specification<T: Default> [std::mem::take] (dest: &mut T) -> (r: T)
+    ensures r == *old(dest), call_ensures(T::default, (), *final(dest));
+
 // T7 `any_eq`: EXTRA_FIELD_MAPPING.iter().any(|&mapped| mapped == kind)
 // ASSUMED: Iterator::any over a slice iterator with an equality closure is membership
 #[verifier::external_body]
